@@ -183,6 +183,7 @@ func vhNeoCheck(s *vhNeoState, tag string) {
 
 //vf:tier quick
 //vf:bigint theory
+//vf:bvints off
 //vf:unwind 80
 //vf:redirect github.com/nspcc-dev/neo-go/pkg/crypto/keys.NewPublicKeyFromBytes => github.com/nspcc-dev/neo-go/pkg/core/native.vhKeyFromBytes
 //vf:bound NEO: two accounts (quick tier: one; balances < 2^8, voting for nothing, K1 or K2) and two candidates (present or not, registered or not, other votes < 2^8) in any consistent state; one vote by account 0 for nothing, K1 or K2; same block as the last balance change (no GAS reward is due)
@@ -206,6 +207,7 @@ func VF_C05_neo_vote_keeps_counts() {
 
 //vf:tier quick
 //vf:bigint theory
+//vf:bvints off
 //vf:unwind 80
 //vf:redirect github.com/nspcc-dev/neo-go/pkg/crypto/keys.NewPublicKeyFromBytes => github.com/nspcc-dev/neo-go/pkg/core/native.vhKeyFromBytes
 //vf:bound NEO: the same two-account (quick tier: one-account)/two-candidate consistent state; one balance change (the increaseBalance callback of transfer/mint/burn) of any amount in (-2^8, 2^8) on account 0
